@@ -276,6 +276,18 @@ type World struct {
 	opNext int
 	// HTTPDoer answers request_uri / jwks_uri fetches (no network).
 	Fetch func(url string) (int, string)
+	// IDAlg, if set, is written into the ID-token header of every session the harness creates
+	// (the integrator's duty when the signing key is not RS256).
+	IDAlg string
+}
+
+// NewSess builds a session like the package function and applies the world's ID-token header algorithm.
+func (w *World) NewSess(sub string) *Sess {
+	s := NewSess(sub)
+	if w.IDAlg != "" {
+		s.Headers.Extra = map[string]interface{}{"alg": w.IDAlg}
+	}
+	return s
 }
 
 type stubRT struct{ w *World }
